@@ -246,6 +246,7 @@ def run_case(case, ctx):
         w = float(ham.data[1, 1] - ham.rwa_energies[1])
         ana = 0.5 * numpy.exp(-1j * w * tt - g)
         devs = []
+        devs_ss = []
         for depth in range(1, case["D"] + 1):
             rho0 = numpy.zeros((dim, dim), dtype=complex)
             rho0[0, 0] = rho0[1, 1] = rho0[0, 1] = rho0[1, 0] = 0.5
@@ -258,6 +259,21 @@ def run_case(case, ctx):
             ctx.check("trace", float(numpy.max(numpy.abs(tr - 1.0))), 256 * EPS * t.length, {"class": cls, "depth": depth})
             # populations do not move for uncoupled sites
             ctx.check("populations-static", float(numpy.max(numpy.abs(d[:, 1, 1] - 0.5))), 1e-10, {"depth": depth})
+            if N == 2:
+                # a coherence between the two excited sites feels both (independent) baths: exp(-i(w1-w2)t - g1(t) - conj(g2(t)))
+                r3s = numpy.zeros((dim, dim), dtype=complex)
+                r3s[1, 1] = r3s[2, 2] = r3s[1, 2] = r3s[2, 1] = 0.5
+                with ctx.lib("KTHierarchyPropagator.propagate (site-site coherence)"):
+                    hy2 = mk_hierarchy(ham, sbi, depth)
+                    ev2 = KTHierarchyPropagator(t, hy2).propagate(qr.ReducedDensityMatrix(data=r3s))
+                d2 = numpy.array(ev2.data)
+                w12 = float((ham.data[1, 1] - ham.rwa_energies[1]) - (ham.data[2, 2] - ham.rwa_energies[2]))
+                ana_ss = 0.5 * numpy.exp(-1j * w12 * tt - g - numpy.conj(g))
+                devs_ss.append(float(numpy.max(numpy.abs(d2[:, 1, 2] - ana_ss))))
+                tr2 = numpy.trace(d2, axis1=1, axis2=2)
+                ctx.check("trace", float(numpy.max(numpy.abs(tr2 - 1.0))), 256 * EPS * t.length, {"class": cls, "depth": depth, "state": "site-site"})
+                ctx.check("hermitian", float(numpy.max(numpy.abs(d2 - numpy.conj(numpy.transpose(d2, (0, 2, 1)))))), 1e-12, {"class": cls, "depth": depth, "state": "site-site"})
+        ctx.note("devs_site_site", devs_ss)
         ctx.note("devs", devs)
         ctx.note("ratio", case["ratio"])
         D = case["D"]
@@ -270,6 +286,13 @@ def run_case(case, ctx):
         ctx.require("converges", mono and fast, dict(det, what="deviation not decreasing with depth"))
         target = 1.5e-3 if D == 6 else 1e-4
         ctx.check("converges", devs[-1], target, dict(det, what="deviation at the largest depth"))
+        if devs_ss:
+            # two baths act on a site-site coherence: the effective coupling is larger by sqrt(2), convergence is slower but of the same kind
+            mono2 = all(devs_ss[i + 1] <= max(devs_ss[i], FLOOR) for i in range(D - 1))
+            fast2 = all(devs_ss[i + 2] <= max(0.7 * devs_ss[i], FLOOR) for i in range(D - 2))
+            det2 = dict(det, deviations_by_depth=devs_ss, coherence="between the two excited sites")
+            ctx.require("converges", mono2 and fast2, dict(det2, what="deviation not decreasing with depth"))
+            ctx.check("converges", devs_ss[-1], 10 * target, dict(det2, what="deviation at the largest depth"))
         decay = 1.0 - float(numpy.min(numpy.abs(ana))) / 0.5
         ctx.key((cls, N, D, b["reorg"], b["cortime"], b["T"]))
         ctx.nontrivial(decay > 0.05)
